@@ -16,6 +16,7 @@
 //!   //@replace? <fn> | <from> | <to>          same, but allowed not to apply
 //!   //@sig <file> | <sel> | <fn> | <expected real signature>      (whitespace-insensitive)                (E2)
 //!   //@struct <file> | <Name> | <expected field list>             (whitespace-insensitive)                (E2)
+//!   (automatic) `_ = e;` inside a pasted body becomes `let _ = e;`                                        (E9)
 //!   //@paste <file> | <sel> | <fn>            replaced by the verbatim body of that function
 //! <sel>: "<Trait> for <Type>", "inherent <Type>", "trait <Trait>" (default method) or "free" (free function).
 //!
@@ -108,6 +109,14 @@ impl<'a, 'ast> Visit<'ast> for Edits<'a> {
             }
         }
         syn::visit::visit_expr_closure(self, c);
+    }
+    fn visit_expr_assign(&mut self, a: &'ast syn::ExprAssign) {
+        // E9: `_ = e;` (destructuring assignment to the wildcard, unsupported by Verus) -> `let _ = e;` (same meaning)
+        if matches!(&*a.left, syn::Expr::Infer(_)) {
+            let p = start(a.left.span());
+            self.ins.push(Edit { start: p, end: p, text: "let ".to_string(), rule: "E9" });
+        }
+        syn::visit::visit_expr_assign(self, a);
     }
     fn visit_expr_while(&mut self, w: &'ast syn::ExprWhile) {
         self.loop_body(&w.body);
